@@ -45,13 +45,13 @@ NonDefault(i) == Cardinality({k \in {"flatten", "internal", "missing", "alias", 
 RootIncs == {<<>>} \cup {<<i>> : i \in Variants2(Inc("x", "A")) \cup Variants2(Inc("x", "B")) \cup Variants2(Inc("x", "C"))}
             \cup {<<i, j>> : i \in Variants2(Inc("x", "A")), j \in Variants2(Inc("y", "B")) \cup Variants2(Inc("y", "A")) \cup Variants2(Inc("y", "C"))}
 AIncs == {<<>>} \cup {<<i>> : i \in Variants(Inc("n", "C"))}
-BIncs == {<<>>, <<Inc("n", "C")>>}
+BIncs == {<<>>} \cup {<<i>> : i \in Variants(Inc("n", "C"))}
 CIncs == {<<>>, <<Inc("m", "A")>>}
-Trees == {[R |-> r, A |-> a, B |-> b, C |-> c] : r \in RootIncs, a \in AIncs, b \in BIncs, c \in CIncs}
-Options(t) == LET all == t.R \o t.A \o t.B \o t.C IN
-              IF all = <<>> THEN 0 ELSE LET S == {k \in 1..Len(all) : TRUE} IN
-              Cardinality({<<k, o>> \in (1..Len(all)) \X {"flatten", "internal", "missing", "alias", "exclude", "dir", "iv"} :
-                              all[k][o] # Inc(all[k].ns, all[k].file)[o]})
+\* clash: the root file additionally defines a task literally named "x:t1" (task names may contain ':')
+RECURSIVE CountSeq(_)
+CountSeq(is) == IF is = <<>> THEN 0 ELSE NonDefault(Head(is)) + CountSeq(Tail(is))
+Within(S) == {x \in S : CountSeq(x) <= MaxOptions}
+Options(t) == CountSeq(t.R) + CountSeq(t.A) + CountSeq(t.B) + CountSeq(t.C) + (IF t.clash THEN 1 ELSE 0)
 
 \* ---- which files are reachable, cycles
 RECURSIVE Reach(_, _, _)
@@ -96,7 +96,10 @@ LiftEntry(f, inc, e, parentHasNs) ==
 RECURSIVE Exp(_, _, _)
 Exp(t, f, fuel) ==
   IF fuel = 0 THEN <<>>
-  ELSE LET own == Own(f)
+  ELSE LET own == IF f = "R" /\ t.clash
+                    THEN Own(f) \o << [name |-> <<"x", "t1">>, aliases |-> {}, origin |-> <<"R", "x:t1">>, internal |-> FALSE,
+                                        dir |-> <<>>, iv |-> "", deps |-> <<>>, calls |-> <<>>] >>
+                    ELSE Own(f)
            sub(k) == LET inc == t[f][k] IN
                      IF inc.missing # "no" THEN <<>>
                      ELSE LET es == SelectSeq(Exp(t, inc.file, fuel - 1), LAMBDA e : inc.exclude = "" \/ Join(e.name) # inc.exclude)
@@ -116,7 +119,9 @@ Expected(t) ==
                 deps |-> [j \in 1..Len(es[k].deps) |-> Join(es[k].deps[j].name)],
                 calls |-> [j \in 1..Len(es[k].calls) |-> Join(es[k].calls[j].name)]]]]
 
-Init == /\ tree \in {t \in Trees : Options(t) <= MaxOptions}
+Init == /\ \E r \in Within(RootIncs), a \in Within(AIncs), b \in Within(BIncs), c \in CIncs, k \in BOOLEAN :
+             /\ CountSeq(r) + CountSeq(a) + CountSeq(b) + CountSeq(c) + (IF k THEN 1 ELSE 0) <= MaxOptions
+             /\ tree = [R |-> r, A |-> a, B |-> b, C |-> c, clash |-> k]
         /\ exp = Expected(tree)
 Next == FALSE /\ UNCHANGED <<tree, exp>>
 Spec == Init /\ [][Next]_<<tree, exp>>
